@@ -17,6 +17,9 @@ CHECKS = {
  'C07': dict(level='exploration', design='3/C07', technique='runtime monitor at the transport boundary: simulated HTTP/TCP transports + reference aggregator; request bytes checked, success allowed only for honest replies and the returned signature compared with the reference',
    text='The real blocking and asynchronous signing paths run over a fake libcurl and wrapped socket calls; a reference aggregator (python) parses every request at the transport boundary (hash, level, login id, MAC recomputed) and answers either honestly (random tree shapes, chunked delivery) or with one of 21 deviations (foreign/stale id, other hash, other level, non-zero status, error PDU, truncated/garbled, bad MAC, other MAC algorithm/key, other PDU version, inconsistent chains, transport failures). Success is accepted only for honest behaviours and then the returned signature must be byte-identical to the one the reference issued and internally consistent; SHA-1 input must be refused before anything is sent.',
    note='Trusts the simulated transports (harness/ksi_exec_net.c), the reference aggregator (vlib/refserver.py, vlib/gen.py) and refksi. Block-signer signing is exercised under C16.'),
+ 'C08': dict(level='exploration', design='3/C08', technique='runtime monitor at the transport boundary: simulated transports + reference extender on a deterministic reference calendar; result compared element-wise with source and reply',
+   text='Source signatures from the reference aggregator (calendar chains cut from one deterministic reference calendar so that right links of the same second agree across publication times) are extended through the blocking HTTP/TCP clients and the asynchronous service to {calendar head, later, equal, earlier time, a publication record, a publication record with a wrong hash}; the reference extender answers honestly or with one of 21 deviations (wrong id, other times, wrong shape, other input hash, altered right link, status error, bad MAC, other version, truncated/garbled, transport errors). Success is accepted only for honest replies; then aggregation chains must be byte-identical to the source, the calendar element must be the reply chain, publication record as supplied, no authentication record, the reference evaluator must find it consistent; the source serialization must be unchanged in every case; request times/login/MAC are checked at the transport.',
+   note='Trusts the simulated transports, vlib/refserver.py (Calendar, ext replies), refksi. KSI_extendSignature via a publications file is exercised under C04/C18.'),
 }
 NOT_YET = 'check not built yet in this session (planned in DESIGN.md section 3)'
 
